@@ -348,3 +348,25 @@ M('C11', 'hill-prop-d-over-v', T,
   "        cdef double d = state[self.d_index]\n        cdef double rate = params[self.rate_index]\n        return d * rate * (X / K) ** n / (1 + (X/K)**n)",
   "        cdef double d = state[self.d_index] / volume\n        cdef double rate = params[self.rate_index]\n        return d * rate * (X / K) ** n / (1 + (X/K)**n)", 'fire', 'R11.1-volume-formula/PositiveProportionalHillPropensity')
 M('C11', 'silent-growth-rewrite', T, "        return ( exp(gr*dt) - 1.0) * volume", "        return volume * exp(dt*gr) - volume", 'silent')
+
+# ------------------------------------------------------------------ C19
+M('C19', 'revert-phantom-event', L, "			elif proposed_time > final_time-10e-8 or Lambda == 0:\n", "			elif proposed_time > final_time-10e-8:\n", 'fire', 'R19.4-no-phantom-event')
+M('C19', 'revert-phantom-event-2', L, "			if (next_queue_time < proposed_time or Lambda == 0) and next_queue_time < final_time:\n", "			if next_queue_time < proposed_time and next_queue_time < final_time:\n", 'fire', 'R19.4-idle-step')
+MUTANTS.append({'prop': 'C19', 'name': 'estate-not-decremented', 'kind': 'fire', 'expect': 'R19.1-conservation/PerfectBinomialVolumeSplitter',
+                'file': S, 'occurrences': 2, 'old': "            dstate[i] = <double> amount\n            estate[i] -= dstate[i]", 'new': "            dstate[i] = <double> amount\n            estate[i] = dstate[i]"})
+M('C19', 'perfect-branch-skips-remainder', L,
+  "					dstate[species_index] = <int> d_value\n			estate[species_index] -= dstate[species_index]",
+  "					dstate[species_index] = <int> d_value\n					continue\n			estate[species_index] -= dstate[species_index]", 'fire', 'R19.1-conservation/LineageVolumeSplitter')
+M('C19', 'volume-q', S, "        cdef double q = 1 - p\n", "        cdef double q = 1 - p/2\n", 'fire', 'R19.1-volume/GeneralVolumeSplitter')
+M('C19', 'binomial-p-not-volume-fraction', S, "            amount = cyrandom.binom_rnd_f(dstate[species_index],p)\n", "            amount = cyrandom.binom_rnd_f(dstate[species_index],q)\n", 'fire', 'R19.1-volume/GeneralVolumeSplitter')
+M('C19', 'lineage-perfect-volume', L, "			v0d = parent.get_volume()*.5\n			v0e = parent.get_volume()*.5", "			v0d = parent.get_volume()*.5\n			v0e = parent.get_volume()", 'fire', 'R19.1-volume/LineageVolumeSplitter')
+M('C19', 'daughter-time', L, "LineageVolumeCellState(v0 = v0e, t0 = parent.get_time(), state = estate)", "LineageVolumeCellState(v0 = v0e, t0 = parent.get_initial_time(), state = estate)", 'fire', 'R19.3-daughters')
+M('C19', 'daughter-state-swapped', L, "LineageVolumeCellState(v0 = v0e, t0 = parent.get_time(), state = estate)", "LineageVolumeCellState(v0 = v0e, t0 = parent.get_time(), state = dstate)", 'fire', 'R19.3-daughters')
+M('C19', 'parent-link-missing', L, "			self.daughter_schnitz2.set_parent(self.s)\n", "", 'fire', 'R19.3-links')
+M('C19', 'binom-draws', R, "    cdef unsigned n = int(N+0.5)\n", "    cdef unsigned n = int(N)\n", 'fire', 'R19.2-binomial')
+M('C19', 'volume-test-dropped', L,
+  "				current_volume = self.interface.apply_volume_rules(&self.c_current_state[0], current_volume, current_time, delta_t, rule_step)\n				if current_volume <= 0:",
+  "				current_volume = self.interface.apply_volume_rules(&self.c_current_state[0], current_volume, current_time, delta_t, rule_step)\n				if current_volume < -1:", 'fire', 'R19.5-positive-volume')
+M('C19', 'duplicate-default-mislabelled', L, "				elif default == \"duplicate\":\n					self.duplicate_indices.push_back(index)", "				elif default == \"duplicate\":\n					self.binomial_indices.push_back(index)", 'fire', 'R19.1-index-classes/LineageVolumeSplitter')
+M('C19', 'duplicate-option-mislabelled', L, "			elif options[s] == \"duplicate\":\n				self.duplicate_indices.push_back(index)", "			elif options[s] == \"duplicate\":\n				self.perfect_indices.push_back(index)", 'fire', 'R19.1-index-classes/LineageVolumeSplitter')
+M('C19', 'silent-conservation-rewrite', S, "            amount = cyrandom.binom_rnd_f(dstate[species_index],p)\n            dstate[species_index] = <double> amount\n", "            dstate[species_index] = <double> cyrandom.binom_rnd_f(dstate[species_index],p)\n", 'silent')
